@@ -503,7 +503,8 @@ Definition ens_obs_eqb (a b : ens RV) : bool :=
 Inductive case :=
 | CMol (wq : bool) (input : mol RV) (written : list str) (readback : mol RV)
 | CAll (wq : bool) (input : list (mol RV)) (written : list str) (readback : list (mol RV))
-| CEns (input : ens RV) (written : list str) (readback : ens RV).
+| CEns (input : ens RV) (written : list str) (readback : ens RV)
+| CWs (points : list N).       (* every code point below 12289 for which CPython's str.isspace() holds *)
 
 (* (1) the model writes exactly the lines molli wrote; (2) the model reads molli's text into exactly what
    molli read; (3) that is the normal form the round-trip theorem speaks of *)
@@ -521,4 +522,5 @@ Definition check_case (c : case) : bool :=
   | CEns e w r =>
       list_eqb str_eqb (concat (map (fun c => mol_lines RV true (conformer_mol RV e c)) (e_confs e))) w
       && match read_ens RV (text_of w) with Some r' => ens_obs_eqb r' r && ens_obs_eqb r' (norm_ens RV e) | None => false end
+  | CWs pts => list_eqb N.eqb (filter pyws (seqN 12289)) pts      (* pyws is false from 12289 on: Proofs, pyws_bound *)
   end.
